@@ -51,8 +51,8 @@ Inductive op :=
 | OUpdate (table : str) (key : item) (expr : str) (cond : option str) (names : fmap str) (vals : item) (all_old : bool)
 | ODelete (table : str) (key : item) (cond : option str) (names : fmap str) (vals : item) (return_old : bool)
 | OQuery (table : str) (index : option str) (keycond filter : option str) (names : fmap str) (vals : item)
-         (limit : nat) (esk : item) (forward : option bool)
-| OScan (table : str) (index : option str) (filter : option str) (names : fmap str) (vals : item) (limit : nat) (esk : item)
+         (limit : nat) (esk : item) (forward : option bool) (proj : str)
+| OScan (table : str) (index : option str) (filter : option str) (names : fmap str) (vals : item) (limit : nat) (esk : item) (proj : str)
 | OBatchWrite (reqs : fmap (list wreq))
 | OBatchGet (reqs : fmap (list item)) (opts : fmap (fmap str * str))   (* per table: keys; names and projection *)
 | OTransact
@@ -376,11 +376,11 @@ Definition run_search (c : client) (t : tbl) (q : query) : client * obs :=
   end.
 
 Definition query_op (c : client) (table : str) (index : option str) (keycond filter : option str)
-    (names : fmap str) (vals : item) (limit : nat) (esk : item) (forward : option bool) : client * obs :=
+    (names : fmap str) (vals : item) (limit : nat) (esk : item) (forward : option bool) (proj : str) : client * obs :=
   match (match flavour with V1 => true | V2 => true end, c_failure c) with
   | (_, Some f) => (c, err_obs (failure_err f))
   | (_, None) =>
-      if validate_expr_attrs (keys names) (keys vals) [opt_str keycond; opt_str filter; []] then
+      if validate_expr_attrs (keys names) (keys vals) [opt_str keycond; opt_str filter; proj] then
         match lookup table (c_tables c) with
         | None => (c, err_obs NotFound)
         | Some t =>
@@ -392,11 +392,11 @@ Definition query_op (c : client) (table : str) (index : option str) (keycond fil
   end.
 
 Definition scan_op (c : client) (table : str) (index : option str) (filter : option str)
-    (names : fmap str) (vals : item) (limit : nat) (esk : item) : client * obs :=
+    (names : fmap str) (vals : item) (limit : nat) (esk : item) (proj : str) : client * obs :=
   match c_failure c with
   | Some f => (c, err_obs (failure_err f))
   | None =>
-      if validate_expr_attrs (keys names) (keys vals) [[]; opt_str filter] then
+      if validate_expr_attrs (keys names) (keys vals) [proj; opt_str filter] then
         match lookup table (c_tables c) with
         | None => (c, err_obs NotFound)
         | Some t =>
@@ -542,8 +542,8 @@ Definition step (c : client) (o : op) : client * obs :=
   | OGet t k names proj => get_item_op c t k names proj
   | OUpdate t k e cond names vals ao => update_item c t k e cond names vals ao
   | ODelete t k cond names vals ro => delete_item c t k cond names vals ro
-  | OQuery t ix kc fl names vals lim esk fw => query_op c t ix kc fl names vals lim esk fw
-  | OScan t ix fl names vals lim esk => scan_op c t ix fl names vals lim esk
+  | OQuery t ix kc fl names vals lim esk fw proj => query_op c t ix kc fl names vals lim esk fw proj
+  | OScan t ix fl names vals lim esk proj => scan_op c t ix fl names vals lim esk proj
   | OBatchWrite reqs => batch_write c reqs
   | OBatchGet reqs opts => batch_get c reqs opts
   | OTransact =>
